@@ -688,7 +688,12 @@ class Report:
             cov["theorems"] = obligations.get("theorems", [])
             cov["axioms_reported_by_Print_Assumptions"] = obligations.get("axioms", [])
             cov["coq_files"] = obligations.get("files", [])
-        cov["trusted_base"] = trusted_base or []
+        cov["trusted_base"] = list(trusted_base or [])
+        # properties whose obligations include source-text ties name the translators
+        if any(t.startswith("%s_gen_" % self.prop_id) for t in cov.get("theorems", [])):
+            for extra in (TRUSTED_BASE_TRANSLATOR, TRUSTED_BASE_TRANSLATOR_MEASURES):
+                if extra not in cov["trusted_base"]:
+                    cov["trusted_base"].append(extra)
         if extra_cov:
             cov.update(extra_cov)
         cov["known_findings_hit"] = dict(self.known)
@@ -872,6 +877,15 @@ TRUSTED_BASE_COMMON = [
     "the correspondence harness (generator, Gallina emitter, token decoder, comparator with 1e-9 relative tolerance)",
     "exact rationals + NaN/inf instead of IEEE float64 (rounding and signed zero are not modelled)",
 ]
+
+
+TRUSTED_BASE_TRANSLATOR_MEASURES = (
+    "the second-order measure formulas named by the Cxx_gen_* theorems are tied to the source text of "
+    "matrix/measure.py, stripe/measure.py and cubepart.py by the whitelist translator harness/translate/measures.py "
+    "and Base/MeasureExp.v's reading of numpy (cell-wise arithmetic, nansum, broadcasting restricted to axes equal by "
+    "construction, np.sqrt through signed squares); the subtotal strategies (matrix/subtotals.py, stripe/insertion.py) "
+    "are not read - their meaning is the model's (Model/Subtotals.v, Proportions.v, Variance.v) and is tied by the "
+    "correspondence only; members the translator cannot read are None and tied by the correspondence only")
 
 
 def g_subtotal(s):
